@@ -42,6 +42,12 @@ class EncapsulateField:
             getter = "get_" + self.name
         if setter is None:
             setter = "set_" + self.name
+        defining_class = self._get_defining_class_scope().pyobject
+        for accessor in (getter, setter):
+            if accessor in defining_class:
+                raise exceptions.RefactoringError(
+                    "The class already has an attribute named <%s>." % accessor
+                )
         renamer = GetterSetterRenameInModule(
             self.project, self.name, self.pyname, getter, setter
         )
